@@ -604,7 +604,7 @@ def lift_guarded_folds(jinja2, env, tree):
                 if lifted == before:          # no literal leaf (`[]|sum`): the operand itself becomes a variable
                     node.node = N.Name(f"c_{lifted}", "load", lineno=node.lineno)
                     lifted += 1
-                return
+                # an inner async-variant filter may still be foldable on its own (`[]|list|join(',')`): keep walking
         for child in node.iter_child_nodes():
             walk(child)
 
